@@ -861,6 +861,7 @@ static int
 parseattachments(struct message *msg, struct message *parent, int depth)
 {
 	struct message *attach;
+	char name[NAME_MAX + 1], path[PATH_MAX];
 	const char *b, *beg, *body, *end, *type;
 	char *boundary;
 	int term;
@@ -883,6 +884,13 @@ parseattachments(struct message *msg, struct message *parent, int depth)
 	}
 
 	log_debug("%s: boundary=%s, depth=%d\n", __func__, boundary, depth);
+
+	/*
+	 * The message might reside in the attachments vector of the parent
+	 * which can be reallocated below, do not access it from here on.
+	 */
+	(void)strlcpy(path, msg->me_path, sizeof(path));
+	(void)strlcpy(name, msg->me_name, sizeof(name));
 
 	body = msg->me_body;
 	beg = end = NULL;
@@ -912,10 +920,8 @@ parseattachments(struct message *msg, struct message *parent, int depth)
 			err(1, NULL);
 		if (VECTOR_INIT(attach->me_headers) == NULL)
 			err(1, NULL);
-		(void)strlcpy(attach->me_path, msg->me_path,
-		    sizeof(attach->me_path));
-		(void)strlcpy(attach->me_name, msg->me_name,
-		    sizeof(attach->me_name));
+		(void)strlcpy(attach->me_path, path, sizeof(attach->me_path));
+		(void)strlcpy(attach->me_name, name, sizeof(attach->me_name));
 		attach->me_body = message_parse_headers(attach);
 
 		if (parseattachments(attach, parent, depth + 1)) {
